@@ -28,7 +28,11 @@ type Oblig struct {
 }
 
 type ghostInfo struct {
-	ptr SV
+	ptr   SV
+	isMap bool
+	keyT  types.Type
+	valT  types.Type
+	key   string
 }
 
 type Exec struct {
@@ -106,6 +110,11 @@ func (x *Exec) ghost(pkg, name string) *ghostInfo {
 	for _, g := range pc.ghosts {
 		if g.name == name {
 			env := &Env{x: x, pkg: x.typesPkg(pkg), vars: map[string]SV{}}
+			if mt, ok := g.typ.(*ast.MapType); ok {
+				gi := &ghostInfo{isMap: true, keyT: env.resolveType(mt.Key), valT: env.resolveType(mt.Value), key: "GH:" + pkg + "." + name}
+				x.ghosts[pkg+"."+name] = gi
+				return gi
+			}
 			ty := env.resolveType(g.typ)
 			gi := &ghostInfo{ptr: SV{ty: types.NewPointer(ty), l: []*Term{mkBV(1, 32)},
 				p: &PtrInfo{rootKey: "GH:" + pkg + "." + name, rootTy: ty}}}
@@ -614,18 +623,29 @@ func bindResults(vars map[string]SV, sig *types.Signature, results []SV) {
 }
 
 type permitted struct {
-	key  string
-	base *Term
+	key   string
+	base  *Term
+	rng   bool  // only indices [off, off+n) of a slice backing
+	off   *Term
+	n     *Term
+}
+
+// modLoc is one evaluated modifies designator.
+type modLoc struct {
+	ptr SV
+	rng bool // s[:] designator: only [off, off+n) of the backing array
+	off *Term
+	n   *Term
 }
 
 func (x *Exec) modTargets(env *Env, c *FuncContract) []permitted {
 	var out []permitted
 	for _, m := range c.modifies {
 		for _, e := range m.exprs {
-			for _, p := range x.modLocs(env, e) {
-				li := resolveLoc(p)
+			for _, ml := range x.modLocs(env, e) {
+				li := resolveLoc(ml.ptr)
 				for k := li.lo; k < li.hi; k++ {
-					out = append(out, permitted{li.key(k), p.l[0]})
+					out = append(out, permitted{key: li.key(k), base: ml.ptr.l[0], rng: ml.rng, off: ml.off, n: ml.n})
 				}
 			}
 		}
@@ -633,8 +653,8 @@ func (x *Exec) modTargets(env *Env, c *FuncContract) []permitted {
 	return out
 }
 
-// modLocs evaluates a modifies designator to pointer values (in the old state).
-func (x *Exec) modLocs(env *Env, e ast.Expr) []SV {
+// modLocs evaluates a modifies designator to locations (in the old state).
+func (x *Exec) modLocs(env *Env, e ast.Expr) []modLoc {
 	oe := *env
 	if env.oldSt != nil {
 		oe.st = env.oldSt
@@ -642,14 +662,37 @@ func (x *Exec) modLocs(env *Env, e ast.Expr) []SV {
 	switch n := e.(type) {
 	case *ast.StarExpr:
 		v := oe.eval(n.X, nil)
-		return []SV{v}
-	case *ast.SliceExpr: // s[:] : whole backing array
-		s := oe.eval(n.X, nil)
-		return []SV{sliceElemAddr(s, mkBV(0, 64))}
-	case *ast.CallExpr:
-		// mapof(m): all regions of the map
+		return []modLoc{{ptr: v}}
+	case *ast.SliceExpr: // s[:] : the elements of s
+		s := oe.eval(n, nil)
+		p := sliceElemAddr(s, mkBV(0, 64))
+		li := resolveLoc(p)
+		if li.backing && len(li.idxs) == 1 && li.idxSort == nil {
+			return []modLoc{{ptr: p, rng: true, off: s.l[1], n: s.l[2]}}
+		}
+		return []modLoc{{ptr: p}}
 	}
-	return []SV{oe.evalAddr(e)}
+	return []modLoc{{ptr: oe.evalAddr(e)}}
+}
+
+// havocMod havocs one modifies designator in st.
+func (x *Exec) havocMod(st *State, ml modLoc, hint string) {
+	if !ml.rng {
+		st.havocLoc(x, ml.ptr, hint)
+		return
+	}
+	li := resolveLoc(ml.ptr)
+	base := ml.ptr.l[0]
+	for k := li.lo; k < li.hi; k++ {
+		s := li.regionSort(k)
+		r := st.region(li.key(k), s)
+		old := Select(r, base)
+		nw := mkVar(freshName("hv_"+hint+li.leaves[k].path), s.elem)
+		j := mkBound(freshName("j"), I64)
+		outside := Or(BvCmp("bvult", j, ml.off), BvCmp("bvuge", j, BvBin("bvadd", ml.off, ml.n)))
+		st.assume(Forall([]*Term{j}, Implies(outside, Eq(Select(nw, j), Select(old, j)))))
+		st.setRegion(li.key(k), Store(r, base, nw))
+	}
 }
 
 func (x *Exec) frameCheck(st *State, fr *Frame, env *Env, c *FuncContract, pos token.Pos) {
@@ -661,6 +704,7 @@ func (x *Exec) frameCheck(st *State, fr *Frame, env *Env, c *FuncContract, pos t
 	perm := x.modTargets(env, c)
 	var goals []*Term
 	r := mkVar("frame!r", RefS)
+	jj := mkVar("frame!j", I64)
 	pre := BvCmp("bvult", r, mkBVu(0x80000000, 32))
 	for _, key := range sortedKeys(st.heap) {
 		now := st.heap[key]
@@ -668,16 +712,24 @@ func (x *Exec) frameCheck(st *State, fr *Frame, env *Env, c *FuncContract, pos t
 		if now == init {
 			continue
 		}
-		if strings.HasPrefix(key, "map:") {
-			// maps: permitted only via whole-map designators (not yet supported): treat as violation unless unchanged
-		}
 		conds := []*Term{pre}
+		isBacking := strings.HasPrefix(key, "[]") && now.sort.elem.idx == I64
 		for _, p := range perm {
-			if p.key == key {
+			if p.key != key {
+				continue
+			}
+			if p.rng && isBacking {
+				inside := And(BvCmp("bvule", p.off, jj), BvCmp("bvult", jj, BvBin("bvadd", p.off, p.n)))
+				conds = append(conds, Not(And(Eq(r, p.base), inside)))
+			} else {
 				conds = append(conds, Neq(r, p.base))
 			}
 		}
-		goals = append(goals, Implies(And(conds...), Eq(Select(now, r), Select(init, r))))
+		if isBacking {
+			goals = append(goals, Implies(And(conds...), Eq(Select(Select(now, r), jj), Select(Select(init, r), jj))))
+		} else {
+			goals = append(goals, Implies(And(conds...), Eq(Select(now, r), Select(init, r))))
+		}
 	}
 	x.oblige(st, name, "frame", "only locations in the modifies clause change", pos, And(goals...))
 }
